@@ -54,7 +54,7 @@ fn flat_rows(polys: &[Polytope]) -> Option<Vec<Row>> {
 }
 
 pub fn regions(rep: &mut Report, tier: Tier) {
-    let (n, reps) = if tier == Tier::Quick { (3, 1) } else { (4, 2) };
+    let (n, reps) = if tier == Tier::Quick { (3, 2) } else { (4, 3) };
     rep.rule = "binary trees (total/partial, scrambled arena indices): polyhedra() and polyhedra_iter() streams vs reference pre-order (depth, index, remaining siblings) and vs the closed path polytope computed from path_to_node, for every skip_subtree position; find_terminal/evaluate vs exact routing on every lattice point (labels = path of the returned leaf, x satisfies every reported path condition), interior points are routed through the node, terminal regions have disjoint interiors, total trees cover the lattice; non-trivial: tree has >= 2 decisions".into();
     rep.bound = format!("shapes with <= {n} decisions x {reps} assignment(s), dims in {{1,2}}, lattice [-3,3]^d step 1/2, all skip positions");
     let sh = shapes(2, n, true);
@@ -259,7 +259,7 @@ fn gen_system(rng: &mut Rng, d: usize, nrows: usize) -> (Vec<Vec<f64>>, Vec<f64>
 }
 
 pub fn cleanup(rep: &mut Report, tier: Tier) {
-    let cases = if tier == Tier::Quick { 1500 } else { 30000 };
+    let cases = if tier == Tier::Quick { 6000 } else { 150000 };
     rep.rule = "constraint systems with duplicated, positively scaled, parallel, opposite (equality / contradictory) and zero rows; for remove_tautologies, remove_duplicate_rows, remove_redundant_row_constraints, normalize, remove_zero_rows, remove_rows: exact two-way set inclusion (Fourier–Motzkin), rows of the result form a subsequence of the input (up to positive scaling for normalize; canonical empty/unbounded allowed where documented), and no row left by remove_redundant_row_constraints is implied by the others with a margin; non-trivial: the function dropped at least one row".into();
     rep.bound = format!("{cases} seeded systems, 1..=4 rows, dims in {{1,2}}");
     for idx in 1..=cases as u64 {
@@ -274,7 +274,7 @@ pub fn cleanup(rep: &mut Report, tier: Tier) {
         let descr = format!("rows={rows:?} bias={bias:?}");
         let inp = poly_rows(&p).unwrap();
         let inp_f = rows_f64(&p);
-        rep.evaluations += 1;
+        rep.evaluations += 6;
         if idx < 4 {
             rep.sample(descr.clone());
         }
@@ -413,8 +413,8 @@ pub fn cleanup(rep: &mut Report, tier: Tier) {
 #[cfg(affinitree_verif)]
 pub fn faults(rep: &mut Report, tier: Tier) {
     use affinitree::linalg::polyhedron::verif_hook::{self, Fault};
-    let (n, reps, pairs) = if tier == Tier::Quick { (2, 1, false) } else { (3, 2, true) };
-    rep.rule = "trees with infeasible paths x every LP call position of the fault-free run x fault kinds {Error, Unbounded, witness+1e-6, witness+10} (pairs of faults in the thorough tier) for infeasible_elimination and compose::<true,_>; contract: no panic, function unchanged (exact oracle, thin regions tolerated), aff_wf, cached witnesses/verdicts sound, terminals kept by the fault-free run are kept; non-trivial: the injected fault changed the solver's genuine answer".into();
+    let (n, reps, pairs) = if tier == Tier::Quick { (3, 1, false) } else { (4, 1, true) };
+    rep.rule = "trees with infeasible paths x every LP call position of the fault-free run x fault kinds {Error, Unbounded, witness+1e-6, witness+10} (pairs of faults in the thorough tier) for infeasible_elimination and compose::<true,_>; contract: no panic, function unchanged (exact oracle, thin regions tolerated), aff_wf, cached witnesses/verdicts sound, reachable terminals kept by the fault-free run are kept; non-trivial: the injected fault changed the solver's genuine answer".into();
     rep.bound = format!("shapes with <= {n} decisions x {reps} assignment(s), dims in {{1,2}}; all single faults{}", if pairs { " and all ordered pairs at distinct positions (capped at 40 per tree)" } else { "" });
     let sh = shapes(2, n, true);
     let kinds = [Fault::Error, Fault::Unbounded, Fault::Shift(1e-6), Fault::Shift(10.0)];
@@ -457,7 +457,8 @@ pub fn faults(rep: &mut Report, tier: Tier) {
                     continue;
                 }
                 let xbase = xtree(&base).unwrap();
-                let base_leaves: Vec<usize> = xbase.leaves();
+                // terminals of the fault-free result that some input can reach (non-empty closed path region)
+                let base_leaves: Vec<usize> = xbase.leaves().into_iter().filter(|l| feasible(&xbase.closed_region(*l), d)).collect();
                 let mut plans: Vec<Vec<(usize, Fault)>> = vec![];
                 for c in 0..calls {
                     for k in &kinds {
@@ -540,9 +541,23 @@ pub fn faults(rep: &mut Report, tier: Tier) {
                         }
                     }
                     // only less pruning: terminals kept by the fault-free run survive
-                    for l in &base_leaves {
-                        if !xt.nodes.contains_key(l) {
-                            rep.viol(idx, "more-pruning", format!("terminal {l} kept by the fault-free run was removed under LP fault | {pd}"));
+                    if mode == 0 {
+                        for l in &base_leaves {
+                            if !xt.nodes.contains_key(l) {
+                                rep.viol(idx, "more-pruning", format!("terminal {l} kept by the fault-free run was removed under LP fault | {pd}"));
+                            }
+                        }
+                    } else {
+                        // composition allocates fresh indices: compare the multiset of terminal functions
+                        let mut have: Vec<&XAff> = xt.leaves().iter().map(|l| &xt.nodes[l].aff).collect();
+                        for l in &base_leaves {
+                            let f = &xbase.nodes[l].aff;
+                            match have.iter().position(|h| *h == f) {
+                                Some(p) => {
+                                    have.swap_remove(p);
+                                }
+                                None => rep.viol(idx, "more-pruning", format!("a terminal {:?} kept by the fault-free run is missing under LP fault | {pd}", f)),
+                            }
                         }
                     }
                 }
